@@ -111,3 +111,27 @@ Section Files.
     destruct (run_text a mode); cbn [bind] in H; try discriminate. inversion H; reflexivity.
   Qed.
 End Files.
+
+(* ---------- C16: the statement parser as run() uses it (Parser.parse_statement after fixes e648612 and b0266a0) -------------------------------- *)
+(* in silent mode a statement on which PLY reported a syntax error never raises, whatever the grammar actions do afterwards *)
+Theorem silent_statement_with_syntax_error_never_raises : forall norm s e,
+  statement_had_error true s = true -> parse_stmt_of norm true s <> Raise e.
+Proof.
+  intros norm s e H. unfold parse_stmt_of. rewrite H. cbn [andb].
+  destruct (parse_statement norm true s) as [v|x| |]; try discriminate. destruct x; discriminate.
+Qed.
+(* in silent mode the syntax-error exceptions themselves never escape, with or without recovery *)
+Theorem silent_statement_never_raises_parser_errors : forall norm s,
+  parse_stmt_of norm true s <> Raise DDLParserError /\ parse_stmt_of norm true s <> Raise SimpleDDLParserException.
+Proof.
+  intros norm s. unfold parse_stmt_of.
+  destruct (parse_statement norm true s) as [v|x| |]; try (split; discriminate).
+  destruct x; cbn [andb]; try (split; discriminate); destruct (statement_had_error true s); split; discriminate.
+Qed.
+(* what the statement parser returns when it does not raise is what yacc.parse returned: nothing is invented *)
+Theorem parse_stmt_of_ok : forall norm silent s v, parse_stmt_of norm silent s = Ok (Some v) -> parse_statement norm silent s = Ok (Some v).
+Proof.
+  intros norm silent s v. unfold parse_stmt_of.
+  destruct (parse_statement norm silent s) as [r|x| |]; try discriminate; [intro H; exact H|].
+  destruct x; destruct silent; cbn [andb]; try discriminate; destruct (statement_had_error true s); discriminate.
+Qed.
